@@ -23,6 +23,8 @@ Out(s, op) ==
       [] op.n = "put"    -> { O([m |-> Put(s.m, op.a[1], op.a[2]), ever |-> s.ever \cup {op.a[1]}], Unit) }
       \* removing an absent or already removed key changes nothing
       [] op.n = "remove" -> { O([s EXCEPT !.m = Del(@, op.a[1])], Unit) }
+      \* Get as a call of its own between the edits: answers from the current map, changes nothing
+      [] op.n = "get"    -> IF op.a[1] \in DOMAIN s.m THEN { O(s, R(TRUE, s.m[op.a[1]], <<>>)) } ELSE { O(s, R(FALSE, 0, <<>>)) }
       [] OTHER           -> {}
 
 KeySeq(s) == SortSeq(SetToSeq(DOMAIN s.m), LAMBDA x, y : x < y)
